@@ -40,16 +40,19 @@ Definition junk_stat (n : N) : N := (3000000 + n)%N.
 (* ---- registry write commands ---- *)
 Inductive wcmd :=
 | WNone
-| WNew (k i ap stake acct : N)        (* UpdateMiner(isNew = true) *)
-| WUpd (k i stake acct stat : N)      (* UpdateMiner(isNew = false) *)
+| WNew (k i ap stake acct : N) (ws : bool)          (* UpdateMiner(isNew = true); ws: the status slot is written (proposal003) *)
+| WUpd (k i stake acct : N) (stat : option N)       (* UpdateMiner(isNew = false); None: status slot not written *)
 | WDel (k i : N)                      (* RemoveMiner, left = 0 and not a contract *)
 | WAbort (k i lft : N).              (* RemoveMiner otherwise *)
 
 Definition apply_w (c : regmap) (w : wcmd) : regmap :=
   match w with
   | WNone => c
-  | WNew k i ap stake acct => updr c k i {| s_info := Some ap; s_stake := stake; s_acct := acct; s_stat := 0%N |}
-  | WUpd k i stake acct stat => updr c k i {| s_info := s_info (c k i); s_stake := stake; s_acct := acct; s_stat := stat |}
+  | WNew k i ap stake acct ws =>
+    updr c k i {| s_info := Some ap; s_stake := stake; s_acct := acct; s_stat := if ws then 0%N else s_stat (c k i) |}
+  | WUpd k i stake acct stat =>
+    updr c k i {| s_info := s_info (c k i); s_stake := stake; s_acct := acct;
+                  s_stat := match stat with Some x => x | None => s_stat (c k i) end |}
   | WDel k i => updr c k i slot0
   | WAbort k i lft => updr c k i {| s_info := s_info (c k i); s_stake := lft; s_acct := s_acct (c k i); s_stat := 1%N |}
   end.
@@ -58,6 +61,9 @@ Record outcome := { o_w : wcmd; o_bal : bals; o_pend : list (N * N * Z); o_burn 
 
 Definition fail (s : st) (r : res) : outcome :=
   {| o_w := WNone; o_bal := bal s; o_pend := pend s; o_burn := burned s; o_res := r |}.
+
+(* UpdateMiner writes the status slot from proposal003 on *)
+Definition wst (e : env) (x : N) : option N := if g003 (gates e) then Some x else None.
 
 (* the control flow of Model.execute, with the registry write as a command *)
 Definition decide (e : env) (h : N) (t : tx) (s : st) : outcome :=
@@ -71,7 +77,7 @@ Definition decide (e : env) (h : N) (t : tx) (s : st) : outcome :=
     if bal s src <? tok stake then fail s RBalance else
     if is_some (get_miner s id) then fail s RIdExists else
     if is_some (by_account e s acct') then fail s RAcctExists else
-    {| o_w := WNew typ id (h + height_after_stake)%N stake acct'; o_bal := fst (sub_bal (bal s) src (tok stake));
+    {| o_w := WNew typ id (h + height_after_stake)%N stake acct' (g003 (gates e)); o_bal := fst (sub_bal (bal s) src (tok stake));
        o_pend := pend s; o_burn := burned s; o_res := ROk |}
   | TAdd src json_ok id delta =>
     if negb json_ok then fail s RJson else
@@ -82,7 +88,7 @@ Definition decide (e : env) (h : N) (t : tx) (s : st) : outcome :=
     | Some (k, sl) =>
       let stake' := ((s_stake sl + delta) mod U64)%N in
       let stat' := if (min_stake k <? stake')%N then 0%N else s_stat sl in
-      {| o_w := WUpd k id stake' (s_acct sl) stat'; o_bal := fst (sub_bal (bal s) src (tok delta));
+      {| o_w := WUpd k id stake' (s_acct sl) (wst e stat'); o_bal := fst (sub_bal (bal s) src (tok delta));
          o_pend := pend s; o_burn := burned s; o_res := ROk |}
     end
   | TRefund src json_ok amount id =>
@@ -99,8 +105,8 @@ Definition decide (e : env) (h : N) (t : tx) (s : st) : outcome :=
         let lft := (s_stake sl - money)%N in
         {| o_w := if (lft <? min_stake k)%N
                   then (if (N.eqb lft 0%N && negb (contract e src))%bool then WDel k id else WAbort k id lft)
-                  else WUpd k id lft (s_acct sl) (s_stat sl);
-           o_bal := bal s; o_pend := ((h + refund_delay)%N, s_acct sl, tok money) :: pend s;
+                  else WUpd k id lft (s_acct sl) (wst e (s_stat sl));
+           o_bal := bal s; o_pend := (refund_height e k h, s_acct sl, tok money) :: pend s;
            o_burn := burned s; o_res := ROk |}
       end
     end
@@ -112,7 +118,7 @@ Definition decide (e : env) (h : N) (t : tx) (s : st) : outcome :=
       if N.eqb (s_acct sl) acct then fail s RSame else
       if negb (N.eqb (s_acct sl) src) then fail s RAuth else
       if is_some (by_account e s acct) then fail s RAcctExists else
-      {| o_w := WUpd k id (s_stake sl) acct (s_stat sl); o_bal := bal s; o_pend := pend s; o_burn := burned s; o_res := ROk |}
+      {| o_w := WUpd k id (s_stake sl) acct (wst e (s_stat sl)); o_bal := bal s; o_pend := pend s; o_burn := burned s; o_res := ROk |}
     end
   | TOpNode src evm =>
     if bal s src <? ten_tokens then fail s RBalance else
@@ -126,7 +132,7 @@ Definition decide (e : env) (h : N) (t : tx) (s : st) : outcome :=
       | Some (k, sl) =>
         match evm with
         | None => fail s1 REvm
-        | Some c => {| o_w := WUpd k id (s_stake sl) c (s_stat sl); o_bal := b1; o_pend := pend s;
+        | Some c => {| o_w := WUpd k id (s_stake sl) c (wst e (s_stat sl)); o_bal := b1; o_pend := pend s;
                        o_burn := burned s + ten_tokens; o_res := ROk |}
         end
       end
@@ -167,10 +173,12 @@ Definition view_trie (ts : kstore) : N -> N -> option N :=
 Definition k_apply_w (st : kstore) (w : wcmd) : kstore :=
   match w with
   | WNone => st
-  | WNew k i ap stake acct =>
-    kupd (kupd (kupd (kupd st k (k0 i) (CInfo i ap)) k (k1 i) (CStake stake)) k (k2 i) (CAcct acct)) k (k3 i) (CStat 0)
+  | WNew k i ap stake acct ws =>
+    let st3 := kupd (kupd (kupd st k (k0 i) (CInfo i ap)) k (k1 i) (CStake stake)) k (k2 i) (CAcct acct) in
+    if ws then kupd st3 k (k3 i) (CStat 0) else st3
   | WUpd k i stake acct stat =>
-    kupd (kupd (kupd st k (k1 i) (CStake stake)) k (k2 i) (CAcct acct)) k (k3 i) (CStat stat)
+    let st2 := kupd (kupd st k (k1 i) (CStake stake)) k (k2 i) (CAcct acct) in
+    match stat with Some x => kupd st2 k (k3 i) (CStat x) | None => st2 end
   | WDel k i => kupd (kupd (kupd (kupd st k (k0 i) CEmpty) k (k1 i) CEmpty) k (k2 i) CEmpty) k (k3 i) CEmpty
   | WAbort k i lft => kupd (kupd st k (k1 i) (CStake lft)) k (k3 i) (CStat 1)
   end.
@@ -189,13 +197,13 @@ Definition k_execute (e : env) (h : N) (t : tx) (s : kst) : kst * res :=
       kburned := o_burn o |}, o_res o).
 
 Definition k_run_tx (e : env) (h : N) (t : tx) (s : kst) : kst * res :=
-  if kbal s (tx_src t) <? tx_fee then (s, REvict) else
+  if kbal s (tx_src t) <? tx_fee e then (s, REvict) else
   let s1 := {| kcur := kcur s; ktrie := ktrie s;
-               kbal := add_bal (fst (sub_bal (kbal s) (tx_src t) tx_fee)) fee_account tx_fee;
+               kbal := add_bal (fst (sub_bal (kbal s) (tx_src t) (tx_fee e))) fee_account (tx_fee e);
                kpend := kpend s; kesc := kesc s; kburned := kburned s |} in
   match k_execute e h t s1 with
   | (s2, ROk) => (s2, ROk)
-  | (s2, r) => ({| kcur := kcur s1; ktrie := ktrie s1; kbal := kbal s1; kpend := kpend s2; kesc := kesc s1;
+  | (s2, r) => ({| kcur := kcur s1; ktrie := ktrie s1; kbal := (if g002 (gates e) then kbal s1 else kbal s2); kpend := kpend s2; kesc := kesc s1;
                    kburned := kburned s1 |}, r)
   end.
 
